@@ -8,7 +8,8 @@
 (***************************************************************************)
 EXTENDS LocaleObject, Ascii, TLC, Json
 
-CONSTANT MaxLen
+CONSTANTS MaxLen,
+          Start     \* "default": routes start at default(); "rich": at a parsed locale carrying every extension
 VARIABLES ra, rb, ph
 
 RouteOps ==
@@ -20,7 +21,10 @@ RouteOps ==
       OpS("add_tag", B("a")), OpS("add_tag", B("b")), OpS("remove_tag", B("a")),
       OpS("set_tlang", B("en")), Op0("clear_tlang"),
       OpKV("set_tfield", B("h0"), <<B("hybrid")>>), OpK("remove_tfield", B("h0")),
+      OpKV("set_keyword", B("hc"), <<B("h12")>>), OpK("remove_keyword", B("hc")),
+      OpS("set_attribute", B("zzz")), OpKV("set_tfield", B("k0"), <<>>), OpK("remove_tfield", B("k0")),
       OpS("set_language", B("en")), OpS("set_language", B("de")), Op0("clear_language"),
+      OpS("set_language", B("UND")), OpS("set_language", B("und")),
       OpS("set_script", B("Latn")), Op0("clear_script"), OpS("set_region", B("US")) }
 
 Init == ra = <<>> /\ rb = <<>> /\ ph = 0
@@ -33,16 +37,18 @@ Next == \/ /\ ph = 0 /\ Len(ra) < MaxLen
            /\ UNCHANGED <<ra, ph>>
 Spec == Init /\ [][Next]_<<ra, rb, ph>>
 
-VA == RunOps(LocDefault, ra)
-VB == RunOps(LocDefault, rb)
+StartText == IF Start = "default" THEN <<>> ELSE B("und-t-en-h0-hybrid-u-foo-ca-buddhist-x-a")
+StartVal == IF Start = "default" THEN LocDefault ELSE ParseLoc(StartText).val
+VA == RunOps(StartVal, ra)
+VB == RunOps(StartVal, rb)
 
 (* the canonical text identifies the value: equal iff same text            *)
 TextInjective == (VA = VB) = (SerLoc(VA) = SerLoc(VB))
 ValuesOK == ObjOK(VA) /\ ObjOK(VB)
-AllRouteOpsSucceed == \A i \in 1..Len(ra) : ApplyOp(RunOps(LocDefault, SubSeq(ra, 1, i-1)), ra[i]).res.k = "ok"
+AllRouteOpsSucceed == \A i \in 1..Len(ra) : ApplyOp(RunOps(StartVal, SubSeq(ra, 1, i-1)), ra[i]).res.k = "ok"
 
 CaseRec ==
-    [k |-> "cmp", a |-> [start |-> <<>>, ops |-> ra], b |-> [start |-> <<>>, ops |-> rb],
+    [k |-> "cmp", a |-> [start |-> StartText, ops |-> ra], b |-> [start |-> StartText, ops |-> rb],
      eq |-> (VA = VB), sa |-> SerLoc(VA), sb |-> SerLoc(VB), li_ord |-> CmpLI(VA.id, VB.id)]
 EmitCase == ph = 1 => PrintT("CASE " \o ToJson(CaseRec))
 =============================================================================
